@@ -51,7 +51,16 @@ def main(argv=None) -> int:
     ap = argparse.ArgumentParser()
     ap.add_argument("--jobs", type=int, default=16)
     ap.add_argument("--repo", default="/repo")
+    ap.add_argument("--only", default=None, help="one seed id: print what fires, do not rewrite MATRIX files")
     args = ap.parse_args(argv)
+    if args.only:
+        r = run_seed(args.only, args.repo)
+        fired = r.get("fired", {})
+        own = fired.get(r["property"])
+        print(f"seed {args.only} (property {r['property']}): " + ("CAUGHT by its own property's check" if own and own["rc"] == 1 else ("caught by another property's check only" if any(x["rc"] == 1 for x in fired.values()) else "MISSED")))
+        for p_, x in sorted(fired.items()):
+            print(f"  {p_} rc={x['rc']} {x['first'][:230]}")
+        return 0
     sd = os.path.join(VERIF, "seeded")
     names = sorted(n for n in os.listdir(sd) if os.path.isfile(os.path.join(sd, n, "patch.diff")))
     t0 = time.time()
